@@ -312,6 +312,7 @@ def r8(fx):
               {'timing_dark': (10, 20, 30), 'format_light': 'yellow', 'quiet_zone': 'aliceblue', 'light': '#fff'},
               {'dark': (255, 0, 0, 128), 'light': '#fff'}, {'separator': 'red', 'light': '#fff'}, {'dark_module': 'blue'},
               {'alignment_dark': 'red', 'alignment_light': 'yellow', 'version_dark': 'blue', 'version_light': '#eee', 'light': '#fff'}]
+    combos += [dict(kw, light=kw.get('light', '#fff')) for kw in p09.CROSSED]
     for size, border in (((21, 21), None), ((11, 11), 1), ((45, 45), 0)):
         for kw in combos:
             if size[0] == 45 and not ({'alignment_dark', 'finder_dark'} & set(kw) or not kw):
